@@ -42,7 +42,9 @@ mod step {
                         nid
                     )));
                 }
-                task.update_data(&Vars::new().with(&name, value.inner()))
+                task.update_data(&Vars::new().with(&name, value.inner()));
+                // the step changed outside its own execution: keep its stored row in step
+                ctx.runtime.cache().upsert(task)?;
             }
             Ok(())
         })
